@@ -44,6 +44,39 @@ def judge_cli(s, docs, tmpdir, tag, label):
                            {'has_cr': '&#13;' in str(lib)}, wit, status='cli')
 
 
+def judge_twice_merged(s, docs, strict2):
+    """A collection merged a second time is one more reachable state: its text has one running-order element,
+    at most one completion record, and reads back identically."""
+    from .. import events as EV
+    from ..canon import Abs
+    mc, cerr = K.make_collection(s, docs, 'strings', True)
+    if mc is None:
+        return
+    K.merge_collection(s, mc, False)
+    K.merge_collection(s, mc, strict2)
+    EV.drain()
+    wit = {'type': 'twice-merged', 'docs': docs, 'strict2': strict2}
+    s.evaluations += 1
+    s.hist['twice_merged_collections'] += 1
+    try:
+        text = str(mc)
+        a = Abs(text)
+    except Exception as e:
+        s.custom_violation('state-cannot-be-serialised', {'exc': type(e).__name__}, wit, status='twice-merged')
+        return
+    s.note_sig(('twice-merged', strict2, len(a.rcs), len(a.metas)))
+    if len(a.rcs) != 1:
+        s.custom_violation('roCreate-count', {'n': len(a.rcs)}, wit, status='twice-merged')
+    if len(a.metas) > 1:
+        s.custom_violation('several-completion-records', {'n': len(a.metas)}, wit, status='twice-merged')
+    try:
+        back = s.load(text)
+        if type(back).__name__ != 'RunningOrder' or str(back) != text or bool(back.completed) != bool(mc.completed):
+            s.custom_violation('roundtrip-differs', {'reread': type(back).__name__}, wit, status='twice-merged')
+    except Exception as e:
+        s.custom_violation('reread-failed', {'exc': type(e).__name__}, wit, status='twice-merged')
+
+
 def run(s):
     K.suite_workload(s)
     import shutil
@@ -66,6 +99,20 @@ def run(s):
         text = 'cr' if h % 6 == 5 else 'hostile'
         K.fuzz_history(s, h, w, steps=(5, 30), text=text, direct=0.25, drop=0.1)
     s.hist['fuzz_histories_total'] = n
+    for c in range(40 if q else 1500):
+        if not s.mine(c):
+            continue
+        rng = s.rng('twice', c)
+        pool = gen.text_pool('hostile')
+        ro_txt = gen.rand_ro(rng, n_stories=rng.randint(1, 4), pool=pool, message_id=1)
+        from ..canon import Abs as _Abs
+        st_ = _Abs(ro_txt)
+        ids_ = gen.Ids('T%d.' % c)
+        docs = [ro_txt] + [gen.rand_message(rng, st_, K.weighted_kinds(rng, K.kind_weights(1, 1, 0.5, 0)), 10 + k, ids_, pool=pool)
+                           for k in range(rng.randint(1, 5))]
+        if rng.random() < 0.8:
+            docs.append(B.msg_doc('roDelete', 90))
+        judge_twice_merged(s, docs, rng.random() < 0.5)
     # histories that end with a roDelete addressed to another roID followed by more messages, a second roDelete included
     for h in range(40 if q else 1500):
         if not s.mine(h):
@@ -91,6 +138,8 @@ def run(s):
 
 def replay(s, data):
     w = data['witness']
+    if w.get('type') == 'twice-merged':
+        return judge_twice_merged(s, w['docs'], w['strict2'])
     if w.get('type') == 'cli-roundtrip':
         import shutil
         import tempfile
